@@ -232,6 +232,7 @@ CHECKS["C07"] = {
     "assumptions": ["tlsref.go parses ClientHellos correctly", "AES-GCM and X25519 are correct"],
     "jobs": [
         {"pkg": SERVER, "run": "^TestVerif_C07_Flips$", "timeout": {"quick": 600}},
+        {"pkg": SERVER, "run": "^TestVerif_C07_Forged$"},
         {"pkg": SERVER, "run": "^TestVerif_C07_Edits$", "checks": {"quick": 3000, "thorough": 400000}, "shards": {"thorough": 16}},
         {"pkg": SERVER, "run": "^TestVerif_C07_Window$", "timeout": {"quick": 600}},
         {"pkg": SERVER, "run": "^TestVerif_C07_Outcome$", "checks": {"quick": 500, "thorough": 30000}, "shards": {"thorough": 16}, "timeout": {"quick": 600}},
